@@ -2,10 +2,14 @@
 
 Spec   : spec/TestCasesOps.tla (the catalogue transcribed from the generator docstrings), spec/TestCases.tla (the life
          of a test case; TLC enumerates abstract configuration x family x sub-case), spec/TestCasesTrace.tla.
-Binding: G -- every abstract configuration TLC enumerates (profile, lossless, fragments, fields) is instantiated
-         (secondary parameters by seed: wavelets, depths, colour format, bit depths, picture size), the REAL registered
-         generators are run, and the test cases produced are compared with the (family, sub-case) expectations of
-         TLC's dump.  T -- every produced test case is serialised, validated + decoded by the real decoder, compared
+Binding: G -- TLC enumerates the abstract configurations (profile, lossless, fragments, fields, asymmetric transform,
+         quantisation-matrix class, signal-range class + the concrete range, slice-size class, colour format).  "Full"
+         configurations (all families) are instantiated for the profile/lossless/fragments/fields combinations
+         (the rest by seed); "grid" configurations (cheap families: static_gray, and for lossless codecs the three
+         quantisation families) are instantiated for EVERY enumerated abstract configuration that differs from the
+         base configuration in at most three dimensions (thorough: all of them), without consulting the code under
+         test about their validity; "light" configurations make slices unequal.  The REAL registered generators are
+         run, and the test cases produced are compared with the (family, sub-case) expectations of TLC's dump.  T -- every produced test case is serialised, validated + decoded by the real decoder, compared
          with the decode of the plain encodings of the sources, and recorded as one event; TLC (TestCasesTrace)
          judges each event against the catalogue relation.
 """
@@ -36,11 +40,15 @@ def base_features():
         return read_codec_features_csv(f)["minimal"]
 
 
+# signal ranges <<luma_offset, luma_excursion, color_diff_offset, color_diff_excursion>> of the seeded ("full" / "light")
+# configurations; every one of them is a member of the set TLC enumerates (checked in run), grid configurations take
+# theirs from TLC's dump
 BIT_DEPTHS = {
-    "8": dict(luma_offset=0, luma_excursion=255, color_diff_offset=128, color_diff_excursion=255),
-    "10": dict(luma_offset=64, luma_excursion=876, color_diff_offset=512, color_diff_excursion=896),
-    "16/14": dict(luma_offset=0, luma_excursion=(1 << 16) - 1, color_diff_offset=(1 << 14) // 2, color_diff_excursion=(1 << 14) - 1),
+    "8": (0, 255, 128, 255),
+    "10": (64, 876, 512, 896),
+    "16/14": (0, (1 << 16) - 1, (1 << 14) // 2, (1 << 14) - 1),
 }
+DIMS = ("profile", "lossless", "fragments", "fields", "asym", "qm", "range", "slice", "chroma")
 
 
 def concretise(ab, sec):
@@ -51,7 +59,8 @@ def concretise(ab, sec):
 
     base = base_features()
     w, h = sec["size"]
-    vp = VideoParameters(base["video_parameters"], frame_width=w, frame_height=h, clean_width=w, clean_height=h, color_diff_format_index=ColorDifferenceSamplingFormats(sec["cdf"]), **BIT_DEPTHS[sec["bits"]])
+    lo, le, co, ce = sec["range"]
+    vp = VideoParameters(base["video_parameters"], frame_width=w, frame_height=h, clean_width=w, clean_height=h, color_diff_format_index=ColorDifferenceSamplingFormats(sec["cdf"]), luma_offset=lo, luma_excursion=le, color_diff_offset=co, color_diff_excursion=ce)
     kw = dict(
         profile=Profiles.high_quality if ab["profile"] == "hq" else Profiles.low_delay,
         picture_coding_mode=PictureCodingModes.pictures_are_fields if ab["fields"] else PictureCodingModes.pictures_are_frames,
@@ -77,7 +86,7 @@ def secondary(rnd, plain=False):
     import vc2_data_tables as t
 
     if plain:
-        return {"size": (8, 4), "cdf": 0, "bits": "8", "wavelet": 4, "wavelet_ho": 4, "depth": 1, "depth_ho": 0, "slices": (2, 1), "picture_bytes": 24, "qm": None}
+        return {"size": (8, 4), "cdf": 0, "range": BIT_DEPTHS["8"], "wavelet": 4, "wavelet_ho": 4, "depth": 1, "depth_ho": 0, "slices": (2, 1), "picture_bytes": 24, "qm": None}
     size, slices = rnd.choice([((8, 4), (2, 1)), ((8, 4), (2, 1)), ((16, 8), (2, 2)), ((12, 4), (3, 1)), ((12, 8), (3, 2))])
     if rnd.random() < 0.25:
         # asymmetric transform with a custom quantisation matrix (no default exists)
@@ -98,7 +107,7 @@ def secondary(rnd, plain=False):
     return {
         "size": size,
         "cdf": rnd.choice([0, 0, 1, 2]),
-        "bits": rnd.choice(["8", "8", "10", "16/14"]),
+        "range": BIT_DEPTHS[rnd.choice(["8", "8", "10", "16/14"])],
         "wavelet": wavelet,
         "wavelet_ho": wavelet_ho,
         "depth": depth,
@@ -107,6 +116,92 @@ def secondary(rnd, plain=False):
         # also budgets that are NOT a multiple of the slice count: slices of unequal size (13.5.3.2 / 13.5.4)
         "picture_bytes": nsl * rnd.choice([12, 16, 24, 40]) + rnd.choice([0, 0, 1, nsl - 1, nsl // 2 + 1]),
         "qm": qm,
+    }
+
+
+def project(ab, sec):
+    """concrete projections of a configuration that TLC classifies (TestCasesTrace!AbstractOf)"""
+    import vc2_data_tables as t
+
+    w, h = sec["size"]
+    ph = h // 2 if ab["fields"] else h
+    sx, sy = sec["slices"]
+    mx, my = 1 << (sec["depth"] + sec["depth_ho"]), 1 << sec["depth"]
+    pw, ph = -(-w // mx) * mx, -(-ph // my) * my  # transform padding (15.4.2)
+    return {
+        "asym": bool(sec["depth_ho"] > 0 or sec["wavelet"] != sec["wavelet_ho"]),
+        "customqm": sec["qm"] is not None,
+        "hasdefault": (sec["wavelet"], sec["wavelet_ho"], sec["depth"], sec["depth_ho"]) in t.QUANTISATION_MATRICES,
+        "rng": [int(x) for x in sec["range"]],
+        "ny": (-(-pw // sx)) * (-(-ph // sy)),  # luma coefficients of the largest slice
+        "cdf": int(sec["cdf"]),
+    }
+
+
+def declared(ab4, sec, range_class):
+    """the abstract configuration (TestCases.tla) a seeded configuration instantiates; mirror of the TLA+
+    classification, used only to look the expectations up -- TLC re-derives it from project() and reports any
+    difference (ClassMismatch -> machinery failure)"""
+    pr = project(ab4, sec)
+    return dict(
+        {k: ab4[k] for k in ("profile", "lossless", "fragments", "fields")},
+        asym=pr["asym"],
+        qm="default" if not pr["customqm"] else ("custom" if pr["hasdefault"] else "custom_only"),
+        range=range_class[tuple(pr["rng"])],
+        slice="large" if pr["ny"] > 510 else "small",
+        chroma={0: "444", 1: "422", 2: "420"}[pr["cdf"]],
+    )
+
+
+GRID_SMALL = [((8, 4), (2, 1)), ((16, 8), (2, 2)), ((12, 4), (3, 1)), ((12, 8), (3, 2)), ((16, 4), (4, 1))]
+# more than 510 luma coefficients per slice (512, 640, 768, 1024): an all-ones luma block needs a slice_size_scaler of
+# 2 or 3 while (4:2:2 / 4:2:0) the colour difference blocks of the same slice need a smaller one
+GRID_LARGE = [((32, 16), (1, 1)), ((32, 16), (1, 1)), ((64, 8), (1, 1)), ((64, 16), (2, 1)), ((32, 32), (1, 2)), ((40, 16), (1, 1)), ((48, 16), (1, 1)), ((64, 16), (1, 1))]
+GRID_FAMILIES = ("static_gray",)
+GRID_FAMILIES_LOSSLESS = ("static_gray", "lossless_quantization", "custom_quantization_matrix", "default_quantization_matrix")
+
+
+def custom_matrix(rnd, depth, depth_ho):
+    qm = {0: {("L" if depth_ho else "LL"): rnd.randrange(4)}}
+    for lv in range(1, depth_ho + 1):
+        qm[lv] = {"H": rnd.randrange(6)}
+    for lv in range(depth_ho + 1, depth_ho + depth + 1):
+        qm[lv] = {"LH": rnd.randrange(6), "HL": rnd.randrange(6), "HH": rnd.randrange(8)}
+    return qm
+
+
+def grid_secondary(ab, rng, rnd):
+    """concretise one abstract configuration of TLC's dump (with the signal range TLC chose)"""
+    import vc2_data_tables as t
+
+    (w, h), slices = rnd.choice(GRID_LARGE if ab["slice"] == "large" else GRID_SMALL)
+    if ab["fields"]:
+        h *= 2
+    if not ab["asym"]:
+        depth, depth_ho = rnd.choice([(1, 0), (1, 0), (2, 0)])
+        wavelet = wavelet_ho = rnd.choice(list(range(7)))
+    elif ab["qm"] == "custom_only":
+        depth, depth_ho = 1, rnd.choice([1, 2])
+        wavelet = rnd.choice(list(range(7)))
+        wavelet_ho = rnd.choice([x for x in range(7) if x != wavelet])
+    else:
+        depth, depth_ho = 1, rnd.choice([1, 2])
+        wavelet = wavelet_ho = rnd.choice(list(range(7)))
+    if ab["qm"] != "custom_only" and (wavelet, wavelet_ho, depth, depth_ho) not in t.QUANTISATION_MATRICES:
+        raise RuntimeError("no default quantisation matrix for %r" % ((wavelet, wavelet_ho, depth, depth_ho),))
+    nsl = slices[0] * slices[1]
+    per_slice = rnd.choice([150, 200, 300]) if ab["slice"] == "large" else rnd.choice([12, 16, 24, 40])
+    return {
+        "size": (w, h),
+        "cdf": {"444": 0, "422": 1, "420": 2}[ab["chroma"]],
+        "range": tuple(rng),
+        "wavelet": wavelet,
+        "wavelet_ho": wavelet_ho,
+        "depth": depth,
+        "depth_ho": depth_ho,
+        "slices": slices,
+        "picture_bytes": nsl * per_slice + rnd.choice([0, 0, 1, nsl - 1]),
+        "qm": None if ab["qm"] == "default" else custom_matrix(rnd, depth, depth_ho),
     }
 
 
@@ -149,11 +244,15 @@ def _plain(cf, src, rep):
         pictures = pg.repeat_pictures(pictures, rep)
     ok, err, pics = _decode(_serialise(Stream(sequences=[make_sequence(cf, pictures)])))
     if not ok:
-        raise RuntimeError("plain encoding of %s x%d is rejected: %s" % (src, rep, err))
+        # the validator rejects the plain encoding itself: no base to compare with (every relation to it is then
+        # recorded as not holding; the test cases of such a configuration are rejected for the same reason)
+        return None
     return [p for p, _, _ in pics]
 
 
 def _same(a, b):
+    if a is None or b is None:
+        return False
     return len(a) == len(b) and all(x["Y"] == y["Y"] and x["C1"] == y["C1"] and x["C2"] == y["C2"] for x, y in zip(a, b))
 
 
@@ -189,45 +288,73 @@ def split_name(fam, subname):
     return [subname]
 
 
-def family_job(arg):
-    """Run ONE registered generator for one configuration; returns list of case events (without tid)."""
-    ab, sec, fam, mutate = arg
+def _first_version(stream):
+    """major_version of the first sequence header of an (autofilled) stream description, -1 if there is none"""
+    try:
+        for seq in stream["sequences"]:
+            for du in seq["data_units"]:
+                if "sequence_header" in du:
+                    return int(du["sequence_header"]["parse_parameters"]["major_version"])
+    except Exception:  # noqa
+        pass
+    return -1
+
+
+def config_job(arg):
+    """Run registered generators `fams` for one configuration (the plain encodings are decoded once); returns one
+    result per family: {"fam", "events" (case events without tid), "gen_error", "secs"}."""
+    ab, sec, fams, mutate = arg
+    import time
+
     _tests_path()
     from vc2_conformance.test_cases import DECODER_TEST_CASE_GENERATOR_REGISTRY, normalise_test_case_generator
     from smaller_real_pictures import alternative_real_pictures
 
     cf = concretise(ab, sec)
-    fn = [f for f in DECODER_TEST_CASE_GENERATOR_REGISTRY.iter_registered_functions() if f.__name__ == fam][0]
-    out = []
-    gen_error = None
+    registered = {f.__name__: f for f in DECODER_TEST_CASE_GENERATOR_REGISTRY.iter_registered_functions()}
     bases = {}
-    try:
-        with alternative_real_pictures():
-            cases = list(normalise_test_case_generator(fn, cf))
-    except Exception as e:  # noqa
-        cases = []
-        gen_error = "%s: %s" % (common.exc_signature(e), str(e)[:200])
-    if cases:
-        p1 = _plain(cf, "mid_gray", 1)
-        bases = {"ss1": _plain(cf, "static_sprite", 1), "ss2": _plain(cf, "static_sprite", 2), "mg1": p1, "mg2": _plain(cf, "mid_gray", 2), "mg1mg1": p1 + p1}
-    for tc in cases:
-        ev = {"ev": "case", "fam": tc.case_name, "sub": split_name(tc.case_name, tc.subcase_name), "name": tc.name}
+    results = []
+    for fam in fams:
+        t0 = time.time()
+        fn = registered[fam]
+        out = []
+        gen_error = None
         try:
-            data = _serialise(tc.value)
-            ok, err, pics = _decode(data)
+            with alternative_real_pictures():
+                cases = list(normalise_test_case_generator(fn, cf))
         except Exception as e:  # noqa
-            ok, err, pics = False, "serialise/decode raised %s: %s" % (common.exc_signature(e), str(e)[:160]), []
-        dec = [p for p, _, _ in pics]
-        ev["accepted"] = bool(ok)
-        ev["err"] = err
-        ev["params"] = all(vp == cf["video_parameters"] and pcm == cf["picture_coding_mode"] for _, vp, pcm in pics)
-        ev["n"] = len(pics)
-        ev["numbers"] = [trace.limbs(int(p["pic_num"])) for p in dec]
-        ev["grey"] = _is_grey(pics)
-        ev["eq"] = {k: _same(dec, v) for k, v in bases.items()}
-        ev["bytes"] = len(data) if ok or pics else 0
-        out.append(ev)
-    return {"fam": fam, "events": out, "gen_error": gen_error}
+            cases = []
+            gen_error = "%s: %s" % (common.exc_signature(e), str(e)[:200])
+        if cases and not bases:
+            p1 = _plain(cf, "mid_gray", 1)
+            bases = {"ss1": _plain(cf, "static_sprite", 1), "ss2": _plain(cf, "static_sprite", 2), "mg1": p1, "mg2": _plain(cf, "mid_gray", 2), "mg1mg1": None if p1 is None else p1 + p1}
+        for tc in cases:
+            ev = {"ev": "case", "fam": tc.case_name, "sub": split_name(tc.case_name, tc.subcase_name), "name": tc.name}
+            try:
+                data = _serialise(tc.value)
+                ok, err, pics = _decode(data)
+            except Exception as e:  # noqa
+                data = b""
+                ok, err, pics = False, "serialise/decode raised %s: %s" % (common.exc_signature(e), str(e)[:160]), []
+            dec = [p for p, _, _ in pics]
+            ev["accepted"] = bool(ok)
+            ev["err"] = err
+            ev["params"] = all(vp == cf["video_parameters"] and pcm == cf["picture_coding_mode"] for _, vp, pcm in pics)
+            ev["n"] = len(pics)
+            ev["numbers"] = [trace.limbs(int(p["pic_num"])) for p in dec]
+            ev["grey"] = _is_grey(pics)
+            ev["eq"] = {k: _same(dec, v) for k, v in bases.items()}
+            ev["bytes"] = len(data) if ok or pics else 0
+            ev["ver"] = _first_version(tc.value)
+            out.append(ev)
+        results.append({"fam": fam, "events": out, "gen_error": gen_error, "secs": round(time.time() - t0, 2)})
+    return results
+
+
+def family_job(arg):
+    """Run ONE registered generator for one configuration; returns list of case events (without tid)."""
+    ab, sec, fam, mutate = arg
+    return config_job((ab, sec, [fam], mutate))[0]
 
 
 def check_valid(arg):
@@ -245,19 +372,58 @@ def check_valid(arg):
 
 
 def abstract_key(ab):
-    return (ab["profile"], bool(ab["lossless"]), bool(ab["fragments"]), bool(ab["fields"]))
+    return tuple(ab[k] for k in DIMS)
+
+
+def _key(k):
+    return tuple(sorted((str(a), b) for a, b in k.items()))
+
+
+def load_catalogue(dump_path):
+    """TLC's dump -> (expectations per expectation key, the abstract configuration space with the concrete ranges of
+    each configuration, range -> class)"""
+    expect = {}
+    space = {}
+    range_class = {}
+    for st in tlaval.iter_dump(dump_path):
+        if st["stage"] == "generated":
+            expect.setdefault(_key(st["info"]["key"]), set()).add((str(st["fam"]), tuple(str(x) for x in st["sub"])))
+        elif st["stage"] == "idle" and st["fam"] == "" and st["cfg"]["profile"] != "none":
+            ab = {k: (str(v) if isinstance(v, str) else bool(v)) for k, v in st["cfg"].items()}
+            rng = tuple(int(x) for x in st["rng"])
+            slot = space.setdefault(abstract_key(ab), {"ab": ab, "dev": int(st["info"]["dev"]), "key": _key(st["info"]["key"]), "ranges": []})
+            slot["ranges"].append(rng)
+            range_class[rng] = ab["range"]
+    for slot in space.values():
+        slot["ranges"].sort()
+    return expect, space, range_class
+
+
+def _phase(label, _t=[None]):
+    """VERIF_C05_PROFILE=1: wall time of each phase on stderr"""
+    import time
+
+    if os.environ.get("VERIF_C05_PROFILE"):
+        now = time.time()
+        if _t[0] is not None:
+            sys.stderr.write("PHASE %-28s %.1fs\n" % (label, now - _t[0]))
+        _t[0] = now
 
 
 def run(ctx):
+    _phase("start")
     res = tlc.run("TestCases", "mc/TestCases.cfg", dump=True)
-    ctx.add_tlc(res, "catalogue: abstract configuration x family x sub-case", {"profiles": 2, "lossless": 2, "fragments": 2, "fields": 2})
-    expect = {}
-    for st in tlaval.iter_dump(res.dump_path):
-        if st["stage"] == "generated":
-            expect.setdefault(abstract_key(st["cfg"]), set()).add((str(st["fam"]), tuple(str(x) for x in st["sub"])))
-    abstracts = sorted(expect)
+    ctx.add_tlc(res, "catalogue: abstract configuration (x signal range) x family x sub-case", {"profiles": 2, "lossless": 2, "fragments": 2, "fields": 2, "asym": 2, "qm classes": 3, "range classes": 3, "ranges": 10, "slice classes": 2, "chroma formats": 3})
+    expect, space, range_class = load_catalogue(res.dump_path)
+    if len(space) != 1080 or any(s["key"] not in expect for s in space.values()):
+        raise RuntimeError("expected 1080 abstract configurations with expectations from TLC, got %d" % len(space))
+    for r in BIT_DEPTHS.values():
+        if r not in range_class:
+            raise RuntimeError("signal range %r of the seeded configurations is not one TLC enumerates" % (r,))
+    abstracts = sorted(set(k[:4] for k in space))
     if len(abstracts) != 12:
-        raise RuntimeError("expected 12 abstract configurations from TLC, got %d" % len(abstracts))
+        raise RuntimeError("expected 12 profile/lossless/fragments/fields combinations from TLC, got %d" % len(abstracts))
+    _phase("tlc catalogue")
     rnd = random.Random(ctx.seed)
     per_abs = ctx.pick(1, 5)
     chosen = list(abstracts)
@@ -273,6 +439,18 @@ def run(ctx):
             for attempt in range(6):
                 sec = secondary(rnd, plain=(k == 0 and attempt == 0 and ctx.quick and a == ("hq", False, False, False)))
                 cands.append((ab, sec, (a, k), attempt))
+    # + full configurations whose signal range is a preset that only version 3 has (one per such preset in the thorough
+    # tier, one by seed in the quick tier): all families, including the alternative sequence header encodings
+    rnd_v3 = random.Random(ctx.seed * 7919 + 3)
+    v3 = sorted(r for r, c in range_class.items() if c == "preset_v3")
+    for i, r in enumerate(v3 if not ctx.quick else [rnd_v3.choice(v3)]):
+        a = [("hq", False, False, False), ("ld", False, False, False), ("hq", True, False, True), ("ld", False, False, True)][i % 4]
+        ab = {"profile": a[0], "lossless": a[1], "fragments": a[2], "fields": a[3]}
+        for attempt in range(6):
+            sec = dict(secondary(rnd_v3), range=r)
+            if attempt == 0:
+                sec.update(wavelet=4, wavelet_ho=4, depth=1, depth_ho=0, qm=None)
+            cands.append((ab, sec, (a, "v3-%d" % i), attempt))
     # validity pre-check (first valid attempt of each slot is used)
     valid = common.pmap(check_valid, [(ab, sec) for ab, sec, _, _ in cands])
     configs = []
@@ -283,10 +461,11 @@ def run(ctx):
             continue
         if ok:
             seen.add(slot)
-            configs.append((ab, sec))
+            configs.append((declared(ab, sec, range_class), sec))
         else:
             out_of_scope += 1
-    if len(configs) < ctx.pick(5, 40):
+    n_full = len(configs)
+    if n_full < ctx.pick(5, 40):
         raise RuntimeError("only %d valid configurations could be instantiated" % len(configs))
     # extra "light" configurations: lossy LD / HQ with slice grids and byte budgets that make slices unequal,
     # on which only the cheap mid-grey families are run
@@ -298,33 +477,65 @@ def run(ctx):
         # two-dimensional grids dominate: only they can tell an x/y mix-up from the right thing
         size, slices = rnd.choice([((8, 4), (2, 1)), ((16, 8), (2, 2)), ((16, 8), (2, 2)), ((12, 4), (3, 1)), ((12, 8), (3, 2)), ((12, 8), (3, 2)), ((8, 12), (2, 3)), ((16, 4), (4, 1))])
         nsl = slices[0] * slices[1]
-        sec = {"size": size, "cdf": rnd.choice([0, 1, 2]), "bits": rnd.choice(["8", "10"]), "wavelet": 4, "wavelet_ho": 4, "depth": 1, "depth_ho": 0, "slices": slices,
+        sec = {"size": size, "cdf": rnd.choice([0, 1, 2]), "range": BIT_DEPTHS[rnd.choice(["8", "10"])], "wavelet": 4, "wavelet_ho": 4, "depth": 1, "depth_ho": 0, "slices": slices,
                "picture_bytes": nsl * rnd.choice([8, 12, 16, 33]) + rnd.randrange(0, 2 * nsl), "qm": None}
         lcands.append((ab, sec))
     lvalid = common.pmap(check_valid, lcands)
     for (ab, sec), (ok, err) in zip(lcands, lvalid):
         if ok and len(light_idx) < ctx.pick(64, 250):
             light_idx.add(len(configs))
-            configs.append((ab, sec))
+            configs.append((declared(ab, sec, range_class), sec))
+    # "grid" configurations: one instance of every abstract configuration TLC enumerates that differs from the base
+    # configuration in at most 3 dimensions (quick; + a seeded sample of the others) / of all of them (thorough), with
+    # the signal ranges of its class taken in turn.  NO validity pre-check by the code under test: the concretisation
+    # only uses parameter values every one of which is valid, so a rejected stream or a raising generator is a verdict.
+    rnd_grid = random.Random(ctx.seed * 7919 + 1)
+    grid_idx = set()
+    turn = {}
+    near = sorted(k for k, v in space.items() if v["dev"] <= 3)
+    far = sorted(k for k, v in space.items() if v["dev"] > 3)
+    grid_keys = near + (rnd_grid.sample(far, 40) if ctx.quick else far)
+    for k in grid_keys:
+        slot = space[k]
+        cls = slot["ab"]["range"]
+        rng = slot["ranges"][turn.get(cls, 0) % len(slot["ranges"])]
+        turn[cls] = turn.get(cls, 0) + 1
+        sec = grid_secondary(slot["ab"], rng, rnd_grid)
+        grid_idx.add(len(configs))
+        configs.append((dict(slot["ab"]), sec))
+    _phase("validity pre-checks")
     from vc2_conformance.test_cases import DECODER_TEST_CASE_GENERATOR_REGISTRY
 
     fams = [f.__name__ for f in DECODER_TEST_CASE_GENERATOR_REGISTRY.iter_registered_functions()]
     jobs = []
     for ci, (ab, sec) in enumerate(configs):
+        if ci in grid_idx:
+            jobs.append((ci, (ab, sec, list(GRID_FAMILIES_LOSSLESS if ab["lossless"] else GRID_FAMILIES), None)))
+            continue
         for fam in fams:
             if ci in light_idx and fam not in LIGHT:
                 continue
             if ctx.quick and fam in SLOW and ci >= 2:
                 continue
-            jobs.append((ci, (ab, sec, fam, None)))
-    jobs.sort(key=lambda j: j[1][2] not in SLOW)
-    results = common.pmap(family_job, [j[1] for j in jobs], chunksize=1)
+            jobs.append((ci, (ab, sec, [fam], None)))
+    jobs.sort(key=lambda j: j[1][2][0] not in SLOW)
+    results = common.pmap(config_job, [j[1] for j in jobs], chunksize=1)
+    _phase("family jobs")
+    if os.environ.get("VERIF_C05_PROFILE"):
+        import collections
+
+        tot = collections.Counter()
+        for (ci, j), rs in zip(jobs, results):
+            for r in rs:
+                tot[r["fam"] + ("@grid" if ci in grid_idx else "")] += r["secs"]
+        sys.stderr.write("PROFILE jobs=%d total=%.1f %s\n" % (len(jobs), sum(tot.values()), tot.most_common()))
     per_cfg = {}
     gen_errors = []
-    for (ci, j), r in zip(jobs, results):
-        per_cfg.setdefault(ci, []).append(r)
-        if r["gen_error"]:
-            gen_errors.append({"config": ci, "family": r["fam"], "error": r["gen_error"]})
+    for (ci, j), rs in zip(jobs, results):
+        for r in rs:
+            per_cfg.setdefault(ci, []).append(r)
+            if r["gen_error"]:
+                gen_errors.append({"config": ci, "family": r["fam"], "error": r["gen_error"]})
     records = []
     meta = {}
     tid = 0
@@ -332,19 +543,17 @@ def run(ctx):
     missing_required = []
     unexpected = []
     for ci, (ab, sec) in enumerate(configs):
-        tid += 1
-        records.append(dict(tid=tid, ev="cfg", **ab))
         got = set()
+        tid += 1
         order = {f: i for i, f in enumerate(fams)}
-        for r in sorted(per_cfg.get(ci, []), key=lambda r: order[r["fam"]]):
-            for e in r["events"]:
-                rec = dict(e, tid=tid)
-                rec.pop("err", None)
-                records.append(rec)
-                meta[len(records)] = (ci, e)
+        recs, index = records_for(ab, sec, sorted(per_cfg.get(ci, []), key=lambda r: order[r["fam"]]), tid=tid)
+        for ln, e in index.items():
+            meta[len(records) + ln] = (ci, e)
+            if "accepted" in e:
                 got.add((e["fam"], tuple(e["sub"])))
                 produced += 1
-        exp = expect[abstract_key(ab)]
+        records += recs
+        exp = expect[space[abstract_key(ab)]["key"]]
         ran = set(r["fam"] for r in per_cfg.get(ci, []))
         open_fams = set(f for f, s in exp if s == () and f in ("source_parameters_encodings",))
         for f, s in sorted(got):
@@ -363,12 +572,18 @@ def run(ctx):
         raise RuntimeError("only %d test cases were produced: vacuous" % produced)
     bad, tres = trace.validate("TestCasesTrace", records)
     ctx.add_tlc(tres, "trace validation (TestCasesTrace)")
+    _phase("trace validation")
     dis = 0
     dis_clauses = {}
     for b in bad:
+        if b["clause"] == "ClassMismatch":
+            raise RuntimeError("TLC classifies configuration %r differently from the abstract configuration it was instantiated from" % (records[b["line"] - 1],))
         ci, e = meta[b["line"]]
         ab, sec = configs[ci]
-        if b["alarm"]:
+        if b["alarm"] and b["clause"] == "GeneratorRaises":
+            sig = "C05|GeneratorRaises|%s|%s" % (e["fam"], e["err"].split(":")[0] or "?")
+            ctx.violation(sig, "the %s generator raises instead of producing its test cases: %s (config: %s %s)" % (e["fam"], e["err"], ab, sec), {"ab": ab, "sec": sec, "fam": e["fam"], "name": None})
+        elif b["alarm"]:
             detail = e["err"] if b["clause"] == "NotAccepted" else ""
             sig = "C05|%s|%s" % (b["clause"], e["fam"])
             if b["clause"] == "NotAccepted":
@@ -379,23 +594,37 @@ def run(ctx):
             dis_clauses[b["clause"]] = dis_clauses.get(b["clause"], 0) + 1
     # --- binding self-tests
     st = selftest(configs[0])
+    _phase("selftest")
+    cmeta = {ln: v for ln, v in meta.items() if "accepted" in v[1]}  # case events (not generator calls)
     by_rel = {}
-    for ln, (ci, e) in meta.items():
+    for ln, (ci, e) in cmeta.items():
         by_rel[e["fam"]] = by_rel.get(e["fam"], 0) + 1
     samples = []
-    for ln in sorted(meta)[:: max(1, len(meta) // 5)][:5]:
-        ci, e = meta[ln]
+    for ln in sorted(cmeta)[:: max(1, len(cmeta) // 5)][:5]:
+        ci, e = cmeta[ln]
         samples.append({"config": configs[ci][0], "secondary": {k: v for k, v in configs[ci][1].items() if k != "qm"}, "case": e["name"], "accepted": e["accepted"], "n": e["n"], "grey": e["grey"], "eq": e["eq"]})
+    grid_abs = [configs[ci][0] for ci in sorted(grid_idx)]
+    v3_alone = [ab for ab in grid_abs if ab["range"] == "preset_v3" and not ab["asym"] and not ab["fragments"]]
+    luma_only = [ab for ab in grid_abs if ab["lossless"] and ab["slice"] == "large" and ab["chroma"] != "444"]
+    if not v3_alone or not luma_only:
+        raise RuntimeError("vacuous grid: no configuration that is version 3 because of its signal range alone / no lossless configuration whose luma blocks alone need a slice_size_scaler above 1")
     ctx.coverage.update(
         {
             "traces_validated_against_impl": produced,
             "evaluations": produced,
-            "distinct_nontrivial": sum(1 for ci, e in meta.values() if e["fam"] not in ("static_gray",)),
+            "distinct_nontrivial": sum(1 for ci, e in cmeta.values() if e["fam"] not in ("static_gray",)),
             "rule": "one evaluation = one test case really produced by a registered generator, serialised, validated and decoded by the real decoder and judged by TestCasesTrace against the catalogue relation; non-trivial = every family except the bare static_gray",
             "exhaustive": False,
-            "exhaustive_note": "TLC enumerates all 12 abstract configurations x 20 families x catalogued sub-cases (642 expectations); the concrete configuration space is sampled: %d configurations (%d per abstract configuration), secondary parameters by seed" % (len(configs), per_abs),
+            "exhaustive_note": "TLC enumerates all 1080 abstract configurations (x 10 signal ranges: 3600) and, per expectation key (24), 20 families x catalogued sub-cases; the concrete configuration space is sampled: %d full configurations (%d per profile/lossless/fragments/fields combination + version-3-only signal range presets; all families), %d light ones (unequal slices; cheap families), %d grid ones (one per abstract configuration with <= 3 deviations from the base configuration%s; static_gray + the quantisation families of lossless codecs); secondary parameters by seed" % (n_full, per_abs, len(light_idx), len(grid_idx), " + 40 others by seed" if ctx.quick else " and of every other one"),
             "configurations": len(configs),
+            "full_configurations": n_full,
             "light_configurations_unequal_slices": len(light_idx),
+            "grid_configurations": len(grid_idx),
+            "grid_abstract_space": {"enumerated_by_tlc": len(space), "instantiated": len(set(abstract_key(ab) for ab in grid_abs)), "max_deviations_all_instantiated": 3 if ctx.quick else 9},
+            "grid_version3_by_signal_range_alone": len(v3_alone),
+            "grid_lossless_luma_only_scaler": len(luma_only),
+            "grid_signal_ranges": sorted(set(str(tuple(configs[ci][1]["range"])) for ci in grid_idx)),
+            "generator_calls": sum(1 for v in meta.values() if "accepted" not in v[1]),
             "abstract_configurations_covered": len(set(abstract_key(ab) for ab, _ in configs)),
             "out_of_scope": out_of_scope,
             "families_run": len(fams),
@@ -407,26 +636,45 @@ def run(ctx):
             "catalogue_missing_required": missing_required[:10],
             "catalogue_unexpected_cases": unexpected[:10],
             "binding_selftest": st,
-            "secondary_values_seen": {k: sorted(set(str(sec[k]) for _, sec in configs)) for k in ("size", "cdf", "bits", "wavelet", "depth", "depth_ho", "slices")},
+            "secondary_values_seen": {k: sorted(set(str(sec[k]) for _, sec in configs)) for k in ("size", "cdf", "range", "wavelet", "depth", "depth_ho", "slices")},
             "samples": samples,
         }
     )
     ctx.assumptions += [
-        "configurations: the minimal sample configuration of the test suite varied in profile, lossless, fragments, fields (all combinations enumerated by TLC) and, by seed, wavelet, transform depths, colour-difference format, bit depths, picture size/slices, picture_bytes, custom quantisation matrix",
+        "configurations: the minimal sample configuration of the test suite varied in profile, lossless, fragments, fields, asymmetric transform, quantisation-matrix class, signal-range class (+ the concrete range), slice-size class, colour-difference format (all combinations enumerated by TLC) and, by seed, wavelet, transform depths, picture size/slices, picture_bytes, matrix values",
+        "grid configurations are not pre-checked by the code under test: a generator that raises or a rejected static_gray stream on them is a violation; full and light configurations are pre-checked by the generator's own validity check (static_gray must validate)",
+        "a generator call that raises on an instantiated configuration is a violation (GeneratorRaises)",
         "the real_pictures family uses the test suite's small natural pictures (tests/smaller_real_pictures.py)",
         "'plain encoding of the same source' = encoder.make_sequence(configuration, source pictures) decoded by the same decoder",
         "quick tier runs the two slow families (signal_range, real_pictures) on two configurations only",
     ]
 
 
+def records_for(ab, sec, results, tid=1):
+    """trace records of one configuration: cfg, then per generator call gen + its case events"""
+    recs = [dict(tid=tid, ev="cfg", decl=ab, **dict(project(ab, sec), **{k: ab[k] for k in ("profile", "lossless", "fragments", "fields")}))]
+    index = {}
+    for r in results:
+        recs.append({"tid": tid, "ev": "gen", "fam": r["fam"], "raised": bool(r["gen_error"]), "n": len(r["events"])})
+        index[len(recs)] = {"fam": r["fam"], "name": r["fam"], "err": r["gen_error"] or ""}
+        for e in r["events"]:
+            recs.append(dict({k: v for k, v in e.items() if k != "err"}, tid=tid))
+            index[len(recs)] = e
+    return recs, index
+
+
 def selftest(config):
     """(1) a generator helper broken in-process so that a padding variant changes picture content while staying
-    conformant must be flagged NotSameAsPlain; (2) a corrupted recorded field must be flagged."""
+    conformant must be flagged NotSameAsPlain; (2) a corrupted recorded field must be flagged; (3) a generator made
+    to raise in-process must be flagged GeneratorRaises.  One TLC run judges the three logs (tid 1, 2, 3)."""
     from vc2_conformance.test_cases.decoder import pictures as P
+    import importlib
+
+    LQ = importlib.import_module("vc2_conformance.test_cases.decoder.lossless_quantization")  # the package attribute of that name is the function
 
     ab, sec = config
-    if ab["profile"] != "hq":
-        raise RuntimeError("self-test expects an HQ configuration first")
+    if ab["profile"] != "hq" or ab["lossless"]:
+        raise RuntimeError("self-test expects a lossy HQ configuration first")
     orig_hq = P.fill_hq_slice_padding
 
     def broken_hq(state, sx, sy, hq_slice, component, *a, **k):
@@ -444,27 +692,47 @@ def selftest(config):
         r = family_job((ab, sec, "slice_padding_data", None))
     finally:
         P.fill_hq_slice_padding = orig_hq
-    recs = [dict(tid=1, ev="cfg", **ab)] + [dict({k: v for k, v in e.items() if k != "err"}, tid=1) for e in r["events"]]
-    bad, _ = trace.validate("TestCasesTrace", recs)
-    hit = [b for b in bad if b["alarm"] and b["clause"] in ("NotSameAsPlain", "NotMidGrey")]
-    if not hit or any(b["clause"] == "NotAccepted" for b in bad):
-        raise RuntimeError("binding self-test failed: slice padding filler that alters a coefficient was not detected (%r)" % (bad[:3],))
+    recs1, _ = records_for(ab, sec, [r], tid=1)
     good = family_job((ab, sec, "picture_numbers", None))
-    recs = [dict(tid=1, ev="cfg", **ab)] + [dict({k: v for k, v in e.items() if k != "err"}, tid=1) for e in good["events"]]
-    recs[1] = dict(recs[1], numbers=recs[1]["numbers"][:-1] + [[5]])
-    bad2, _ = trace.validate("TestCasesTrace", recs)
-    if not any(b["alarm"] and b["clause"] == "WrongPictureNumbers" and b["line"] == 2 for b in bad2):
+    recs2, _ = records_for(ab, sec, [good], tid=2)
+    recs2[2] = dict(recs2[2], numbers=recs2[2]["numbers"][:-1] + [[5]])
+    ab3 = dict(ab, lossless=True)
+    orig_clip = LQ.check_for_signal_clipping
+
+    def raising(sequence):
+        raise ValueError("self-test: the generator cannot serialise the stream it built")
+
+    LQ.check_for_signal_clipping = raising
+    try:
+        r3 = config_job((ab3, sec, ["lossless_quantization", "custom_quantization_matrix"], None))
+    finally:
+        LQ.check_for_signal_clipping = orig_clip
+    recs3, _ = records_for(ab3, sec, r3, tid=3)
+    bad, _ = trace.validate("TestCasesTrace", recs1 + recs2 + recs3)
+    b1 = [b for b in bad if b["tid"] == 1]
+    hit = [b for b in b1 if b["alarm"] and b["clause"] in ("NotSameAsPlain", "NotMidGrey")]
+    if not hit or any(b["clause"] == "NotAccepted" for b in b1):
+        raise RuntimeError("binding self-test failed: slice padding filler that alters a coefficient was not detected (%r)" % (b1[:3],))
+    if not any(b["alarm"] and b["clause"] == "WrongPictureNumbers" and b["tid"] == 2 and b["line"] == len(recs1) + 3 for b in bad):
         raise RuntimeError("trace binding self-test failed: corrupted picture numbers accepted")
-    return {"mutant": "fill_hq_slice_padding also sets the first coefficient of the padded component to 1 and shortens the padding by 3 bits (in-process, still conformant)", "cases_flagged": len(hit), "of": len(r["events"]), "trace": "a corrupted recorded picture number is rejected with WrongPictureNumbers"}
+    raised = [b for b in bad if b["tid"] == 3 and b["alarm"] and b["clause"] == "GeneratorRaises"]
+    if len(raised) != 2:
+        raise RuntimeError("binding self-test failed: generators made to raise in-process were not flagged (%r)" % ([b for b in bad if b["tid"] == 3],))
+    return {"mutant": "fill_hq_slice_padding also sets the first coefficient of the padded component to 1 and shortens the padding by 3 bits (in-process, still conformant)", "cases_flagged": len(hit), "of": len(r["events"]), "trace": "a corrupted recorded picture number is rejected with WrongPictureNumbers",
+            "raising_generator": "lossless_quantization's serialise-and-check step made to raise in-process: lossless_quantization and custom_quantization_matrix (which reuses it) are both flagged GeneratorRaises"}
 
 
 def replay(case):
     r = family_job((case["ab"], case["sec"], case["fam"], None))
-    recs = [dict(tid=1, ev="cfg", **case["ab"])] + [dict({k: v for k, v in e.items() if k != "err"}, tid=1) for e in r["events"]]
+    recs, index = records_for(case["ab"], case["sec"], [r])
     bad, _ = trace.validate("TestCasesTrace", recs)
     out = []
     for b in bad:
-        e = r["events"][b["line"] - 2]
-        if b["alarm"] and (case.get("name") in (None, e["name"])):
+        e = index.get(b["line"])
+        if e is None or not b["alarm"]:
+            continue
+        if b["clause"] == "GeneratorRaises":
+            out.append({"clause": b["clause"], "name": e["fam"], "err": e["err"]})
+        elif case.get("name") in (None, e["name"]):
             out.append({"clause": b["clause"], "name": e["name"], "err": e["err"], "eq": e["eq"], "grey": e["grey"], "n": e["n"]})
     return {"violations": out, "generator_error": r["gen_error"]}
